@@ -39,7 +39,7 @@ func init() {
 		Run:             runC12,
 		CaseTimeout:     2 * time.Minute,
 		HangIsViolation: true,
-		Rule: "store opened with BurstRate(1) and the measured flush rate forced to 1e-9 before every write (verif accessor), so every Put/Remove enters the waiting path. Gated scenarios park the writer at store.flushtick.decided / .registered / .before-block and the flusher at store.flush.after-commit and drive explicit Flush calls in each order (a flush completing between decision and registration followed only by work-less flushes - single writer with and without the started flusher; two writers around one flush; registration while a flush is between commit and notice close; registration followed by a work-less flush); stress cases run 1-6 writers with the periodic flusher (1 ms - 1 h) and/or an explicit flushing goroutine under noise delays at the flushTick/Flush hooks. Oracle: every notice channel handed over by the registered hook must be closed when a Flush() that the harness started after that hook event has returned nil (non-blocking receive); at the end no client goroutine is parked in flushTick. " +
+		Rule: "store opened with BurstRate(1) and the measured flush rate forced to 1e-9 before every write (verif accessor), so every Put/Remove enters the waiting path. Gated scenarios park the writer at store.flushtick.decided / .registered / .before-block and the flusher at store.flush.after-commit and drive explicit Flush calls in each order (a flush completing between decision and registration followed only by work-less flushes - single writer with and without the started flusher; two writers around one flush; registration while a flush is between commit and notice close; registration followed by a work-less flush); stress cases run 1-6 writers with the periodic flusher (1 ms - 1 h) and/or an explicit flushing goroutine under noise delays at the flushTick/Flush hooks, half of them with the background collectors at 1-3 ms on 100-400 byte primary files, so that records of the writers' keys are relocated while the writers wait. Oracle: every notice channel handed over by the registered hook must be closed when a Flush() that the harness started after that hook event has returned nil (non-blocking receive); at the end no client goroutine is parked in flushTick. " +
 			"non-trivial iff >=1 write registered for a notice and a flush completed after it; distinct = scenario x observed order of (flushtick, flush) hook events",
 		Assumptions: []string{
 			"flush failures are not injected ('as long as flushes keep succeeding')",
@@ -58,6 +58,10 @@ func runC12(c run.Ctx) *core.CaseResult {
 	r := gen.Rng(c.Seed, propStream("C12"), uint64(c.Index))
 	scen := c12Scenarios[c.Index%len(c12Scenarios)]
 	cfg := gen.Config{Primary: gen.MH, Bits: 8, IndexFileSize: []uint32{100, 1024, gen.DefaultFileSize}[r.IntN(3)], PrimaryFileSize: []uint32{100, 4096, gen.DefaultFileSize}[r.IntN(3)], FileCache: 512}
+	if scen == "stress" && c.Index%12 < 6 {
+		cfg.PrimaryFileSize = []uint32{100, 200, 400}[r.IntN(3)]
+		cfg.IndexFileSize = 100
+	}
 	if r.IntN(4) == 0 {
 		cfg.Primary = gen.CID
 	}
@@ -88,7 +92,14 @@ func runC12(c run.Ctx) *core.CaseResult {
 	if scen == "stress" && started {
 		sync_ = []time.Duration{time.Millisecond, 5 * time.Millisecond, time.Hour}[r.IntN(3)]
 	}
-	s, err := env.Open(store.BurstRate(1), store.SyncInterval(sync_))
+	opts := []store.Option{store.BurstRate(1), store.SyncInterval(sync_)}
+	withGC := scen == "stress" && cfg.Primary == gen.MH && c.Index%12 < 6
+	if withGC {
+		// collectors relocating records next to waiting writers (small files so that they have work)
+		opts = append(opts, store.GCInterval(time.Duration(1+r.IntN(3))*time.Millisecond), store.PrimaryFileSize(cfg.PrimaryFileSize))
+		res.Flag("collectors-running")
+	}
+	s, err := env.Open(opts...)
 	if err != nil {
 		res.Violate("open-error", "c12-open-error", 0, nil, "open: %v", err)
 		return res
